@@ -10,6 +10,7 @@ structure PV where
   name : Bytes
   hide : Bool := false
   hasHelp : Bool := false
+  w : Nat := 0                       -- `display_width(name)` (names may be non-ASCII)
 deriving Repr, DecidableEq
 
 structure HArg where
